@@ -80,8 +80,12 @@ OutU(n, e) == OutUx(n, e, Masks(n), FALSE)
 \* ---- directed ----------------------------------------------------------------------------------
 HasCycleD(e, n) == \E v \in Vs(n) : v \in ReachFrom(TRUE, e, SuccD(e, v, n), n)
 IsolatedD(e, n) == {v \in Vs(n) : SuccD(e, v, n) = {} /\ PredD(e, v, n) = {}}
+\* r is the root of e as a rooted tree: n - 1 edges and every vertex reachable from r along them (then every other vertex has
+\* exactly one parent and there is no cycle).  The tree constructors must accept exactly these <<edge set, root>> pairs.
+IsRootedTree(e, n, r) == Cardinality(e) = n - 1 /\ ReachFrom(TRUE, e, {r}, n) \cup {r} = Vs(n)
 OutDx(n, e, M, big) ==
               [kind |-> "dg", n |-> n, edges |-> e, cyc |-> HasCycleD(e, n), iso |-> IsolatedD(e, n),
+               rooted |-> {r \in Vs(n) : IsRootedTree(e, n, r)},
                children |-> [v \in Vs(n) |-> SuccD(e, v, n)], parents |-> [v \in Vs(n) |-> PredD(e, v, n)],
                dist |-> DistMat(TRUE, e, n), wdist |-> WDistMat(TRUE, e, n), npaths |-> IF big THEN <<>> ELSE PathCount(TRUE, e, n), orders |-> QueryOrders,
                masks |-> [m \in M |-> Induced(e, m)]]
@@ -114,6 +118,15 @@ OutT(n, root, par) == LET e == TreeEdges(n, root, par) IN
                children |-> [v \in Vs(n) |-> SuccD(e, v, n)],
                leaves |-> {v \in Vs(n) : SuccD(e, v, n) = {}},
                masks |-> [m \in Masks(n) \ {Vs(n)} |-> TreeMask(n, root, par, m)]]
+\* ---- predefined grids: vertex (i, j) of an h x w grid is number i * w + j (row-major); the default connectivity is the
+\* 4-connected lattice: (i, j) - (i, j + 1) and (i, j) - (i + 1, j)
+GridEdges(h, w) == {<<i * w + j, i * w + j + 1>> : <<i, j>> \in (0..(h-1)) \X (0..(w-2))}
+                   \cup {<<i * w + j, (i + 1) * w + j>> : <<i, j>> \in (0..(h-2)) \X (0..(w-1))}
+OutGrid(h, w) == LET n == h * w e == GridEdges(h, w) IN
+              [kind |-> "grid", h |-> h, w |-> w, n |-> n, edges |-> e,
+               nbr |-> [v \in Vs(n) |-> {u \in Vs(n) : <<u, v>> \in e \/ <<v, u>> \in e}],
+               coords |-> [v \in Vs(n) |-> <<v \div w, v % w>>]]
+GCases == {[kind |-> "grid", n |-> hw[1] * hw[2], e |-> {}, root |-> hw[1], par |-> <<hw[2]>>] : hw \in ((1..4) \X (1..4)) \ {<<1, 1>>}}
 \* ---- cases -----------------------------------------------------------------------------------------
 UCases == UNION {{[kind |-> "ug", n |-> n, e |-> e, root |-> 0, par |-> <<>>] : e \in SUBSET UPairs(n)} : n \in 1..NU}
 DCases == UNION {{[kind |-> "dg", n |-> n, e |-> e, root |-> 0, par |-> <<>>] : e \in SUBSET DPairs(n)} : n \in 1..ND}
@@ -129,7 +142,8 @@ OutRnd(i) == LET r == RndIn[i]
                [] r.kind = "dg" -> OutDx(r.n, e, M, TRUE)
                [] OTHER -> OutTx(r.n, r.root, [v \in Vs(r.n) |-> r.par[v + 1]], M \ {Vs(r.n)})
 Cases == (IF "rnd" \in Kinds THEN RndCases ELSE {}) \cup (IF "ug" \in Kinds THEN UCases ELSE {}) \cup (IF "dg" \in Kinds THEN DCases ELSE {}) \cup (IF "tree" \in Kinds THEN TCases ELSE {})
-Out(c) == CASE c.kind = "rnd" -> OutRnd(c.idx) [] c.kind = "ug" -> OutU(c.n, c.e) [] c.kind = "dg" -> OutD(c.n, c.e) [] OTHER -> OutT(c.n, c.root, c.par)
+         \cup (IF "grid" \in Kinds THEN GCases ELSE {})
+Out(c) == CASE c.kind = "grid" -> OutGrid(c.root, c.par[1]) [] c.kind = "rnd" -> OutRnd(c.idx) [] c.kind = "ug" -> OutU(c.n, c.e) [] c.kind = "dg" -> OutD(c.n, c.e) [] OTHER -> OutT(c.n, c.root, c.par)
 Init == g \in Cases /\ done = FALSE
 Next == done = FALSE /\ done' = TRUE /\ g' = g /\ CSVWrite("%1$s", <<ToJson(Out(g))>>, IOEnv.OUT_FILE)
 Spec == Init /\ [][Next]_<<g, done>>
@@ -149,5 +163,13 @@ TreeDepthIsDistance == g.kind = "tree" =>
    LET e == TreeEdges(g.n, g.root, g.par) IN
    \A v \in Vs(g.n) : Depth(g.root, g.par, v) = DistMat(TRUE, e, g.n)[g.root][v] /\ PathCount(TRUE, e, g.n)[g.root][v] = 1
 \* Prim's weight is the minimum over all spanning trees (so it may stand in for it on the random graphs)
+\* the lattice: h (w - 1) + w (h - 1) edges; a vertex has as many neighbours as it has sides inside the grid; neighbours differ
+\* by one step in exactly one coordinate
+GridIsLattice == g.kind = "grid" =>
+   LET h == g.root w == g.par[1] o == OutGrid(h, w) IN
+   /\ Cardinality(o.edges) = h * (w - 1) + w * (h - 1)
+   /\ \A v \in Vs(o.n) : LET i == o.coords[v][1] j == o.coords[v][2] IN
+         /\ Cardinality(o.nbr[v]) = (IF i > 0 THEN 1 ELSE 0) + (IF i < h - 1 THEN 1 ELSE 0) + (IF j > 0 THEN 1 ELSE 0) + (IF j < w - 1 THEN 1 ELSE 0)
+         /\ \A u \in o.nbr[v] : LET a == o.coords[u][1] - i b == o.coords[u][2] - j IN a * a + b * b = 1
 PrimIsMST == g.kind = "ug" => (NComp(g.e, g.n) = 1 => PrimWeight(g.e, g.n) = MSTWeight(g.e, g.n))
 =======================================================================
